@@ -5,6 +5,7 @@ from __future__ import annotations
 import json
 
 from harness.drivers import _pipeline as P
+from harness.px import NANTICK
 
 HOWS = ["list", "setter", "string", "npyfile", "txtfile", "scalar"]
 
@@ -38,6 +39,13 @@ def run(ctx):
                 t += step + ctx.rng.choice([0, 1, 1, 2])
                 pts.append(t)
             cfg["times"], cfg["start"] = pts, 0
+        if k % 8 == 3 and cfg["times"] and cfg["start"] > NANTICK:
+            # a readout time that is not a number, after the first one (every comparison with it is false): the
+            # schedule is not increasing and must be refused whichever way it arrives
+            cfg["times"] = list(cfg["times"])
+            cfg["times"].insert(ctx.rng.randint(1, len(cfg["times"])), NANTICK)
+            jobs.append(dict(cfg=cfg, readout_how=("list", "setter")[k % 16 == 3], kind=ctx.rng.choice(["ccd", "cmos", "mkid", "apd"])))
+            continue
         jobs.append(dict(cfg=cfg, readout_how=ctx.rng.choice(HOWS), kind=ctx.rng.choice(["ccd", "cmos", "mkid", "apd"])))
     traces = P.record(jobs)
     ctx.cov["recorded_random"] += len(traces)
